@@ -205,6 +205,32 @@ def run(ctx):
     for i in np.nonzero(dab > dcd)[0]:
       g = g + w[i] * ((1 - np.sqrt(dcd[i] / dab[i])) * np.outer(vab[i], vab[i]) + (1 - np.sqrt(dab[i] / dcd[i])) * np.outer(vcd[i], vcd[i]))
     return g
+  # ---- many features and a prior far from unit scale: det(M) itself is outside the binary64 range (log det ~ 830) while every
+  # quantity of the documented objective is ordinary; a run that stops before max_iter must still be stationary
+  def doc_grad_prior(M, Pinv, vab, vcd, w):
+    g = Pinv - np.linalg.inv(M)
+    dab = np.einsum('ij,jk,ik->i', vab, M, vab)
+    dcd = np.einsum('ij,jk,ik->i', vcd, M, vcd)
+    for i in np.nonzero(dab > dcd)[0]:
+      g = g + w[i] * ((1 - np.sqrt(dcd[i] / dab[i])) * np.outer(vab[i], vab[i]) + (1 - np.sqrt(dab[i] / dcd[i])) * np.outer(vcd[i], vcd[i]))
+    return g
+  for d_big, c_big, sd in ((60, 1e6, 0), (40, 1e8, 1)) + (((50, 1e7, 2),) if thorough else ()):
+    Qb = np.random.RandomState(sd).randn(100, 4, d_big)
+    Pb = c_big * np.eye(d_big)
+    ctx.count('large_determinant', 1)
+    inp = dict(quadruplets='np.random.RandomState(%d).randn(100, 4, %d)' % (sd, d_big), prior='%g * I' % c_big, max_iter=50)
+    try:
+      with warnings.catch_warnings():
+        warnings.simplefilter('ignore')
+        eb = LSML(prior=Pb, max_iter=50).fit(Qb)
+      Mb = eb.get_mahalanobis_matrix()
+    except Exception as ex:
+      ctx.fail_input('fit_runs', 'LSML with %d features and prior %g * I raises %s' % (d_big, c_big, type(ex).__name__), inp, observed=str(ex)[:200])
+      continue
+    gnb = float(np.linalg.norm(doc_grad_prior(Mb, np.eye(d_big) / c_big, Qb[:, 0] - Qb[:, 1], Qb[:, 2] - Qb[:, 3], np.ones(100) / 100)))
+    if eb.n_iter_ < 50 and not gnb < 1.5 * 1e-3:
+      ctx.fail_input('stationary', 'stopped before max_iter at a point that is not stationary (many features, prior of large scale: det M overflows, log det does not)',
+                     inp, observed=dict(n_iter=int(eb.n_iter_), grad_norm=gnb))
   cases = [(sd, d, 1.0, tol) for sd in (0, 1, 2) for d in (3, 4) for tol in (1e-5, 1e-6)] + [(0, 4, 30.0, 1e-5)]
   for sd, d, scale, tol in (cases if thorough else cases[1:-1:2] + cases[-1:]):
     Q = scale * np.random.RandomState(sd).randn(40, 4, d)
